@@ -9,6 +9,9 @@
 //   pat 1 <add_meta> <site> <pattern> <stmt> <rt_file> <rt_line> <table>   lines at the sink
 //   pat 2 <fmt> <nargs> (<0> | <1> <bytes>)*nargs <table>                  vformat_to alone
 //   pat 3 <pattern>                                     constructor state (_fmt_format, ...)
+//   patd <hoist> <nsinks> sink* <nloggers> logger* <nstmts> statement* <table>
+//                                                       which line each sink of a logger is handed
+//                                                       (see Format/PatDispatch.v, patd_run_enc)
 //   pato 0 <n> (<fs> <v>)*n                             oracle: rendering of "{fs}" with v
 //   pato 1 <ts>                                         oracle: text of %(time) for ts (ns, GMT)
 // <stmt> = <time> <tid> <tname> <pid> <logger> <level> <short> <srcloc> <func>
@@ -32,6 +35,7 @@
 #include <map>
 #include <memory>
 #include <mutex>
+#include <optional>
 #include <set>
 #include <sstream>
 #include <stdexcept>
@@ -55,6 +59,7 @@
 #include "quill/Frontend.h"
 #include "quill/LogMacros.h"
 #include "quill/Logger.h"
+#include "quill/filters/Filter.h"
 #include "quill/sinks/Sink.h"
 
 using vh::u64;
@@ -227,6 +232,145 @@ void site3(quill::Logger* l, std::string const& m)
 // clang-format on
 
 u64 g_case_no = 0;
+
+/** ---- patd: several sinks (with / without override pattern options, level filter, user filter) ---- **/
+class RecSinkD : public quill::Sink
+{
+public:
+  explicit RecSinkD(std::optional<quill::PatternFormatterOptions> override_options)
+    : quill::Sink(std::move(override_options))
+  {
+  }
+  void write_log(quill::MacroMetadata const*, uint64_t, std::string_view, std::string_view, std::string const&,
+                 std::string_view, quill::LogLevel, std::string_view, std::string_view,
+                 std::vector<std::pair<std::string, std::string>> const*, std::string_view,
+                 std::string_view log_statement) override
+  {
+    lines.emplace_back(log_statement);
+  }
+  void flush_sink() override {}
+  std::vector<std::string> lines;
+};
+
+// kind 1: reject when the message line contains the byte; kind 2: when the (logger's) statement contains it
+class ByteFilter : public quill::Filter
+{
+public:
+  ByteFilter(u64 kind, char b) : quill::Filter("bytefilter"), _kind(kind), _b(b) {}
+  bool filter(quill::MacroMetadata const*, uint64_t, std::string_view, std::string_view, std::string_view,
+              quill::LogLevel, std::string_view log_message, std::string_view log_statement) noexcept override
+  {
+    std::string_view hay = (_kind == 1) ? log_message : log_statement;
+    return hay.find(_b) == std::string_view::npos;
+  }
+
+private:
+  u64 _kind;
+  char _b;
+};
+
+void log_at_site(quill::Logger* l, u64 site, Stmt const& s, std::string const& rt_file, std::string const& rt_line)
+{
+  if (site == 0)
+  {
+    QUILL_LOG_RUNTIME_METADATA(l, level_of(s.level), rt_file.c_str(),
+                               static_cast<uint32_t>(std::strtoul(rt_line.c_str(), nullptr, 10)),
+                               s.func.c_str(), "{}", s.msg);
+  }
+  else if (site == 1) site1(l, s.msg);
+  else if (site == 2) site2(l, s.msg);
+  else site3(l, s.msg);
+}
+
+void run_patd(Reader& r, std::vector<u64>& out)
+{
+  struct LoggerSpec
+  {
+    std::string name, pattern;
+    bool add_meta;
+    std::vector<u64> sinks;
+  };
+  (void)r.num(); // the model's variant flag
+  ensure_backend();
+  g_errors.clear();
+  std::string uniq = std::to_string(g_case_no);
+  std::vector<std::shared_ptr<RecSinkD>> sinks;
+  u64 ns = r.num();
+  for (u64 k = 0; k < ns && r.ok; ++k)
+  {
+    std::optional<quill::PatternFormatterOptions> ov;
+    if (r.num() != 0)
+    {
+      std::string p = r.str();
+      bool am = r.num() != 0;
+      ov = options_for(p, am);
+    }
+    u64 minlv = r.num();
+    u64 fk = r.num();
+    u64 fb = fk ? r.num() : 0;
+    if (!r.ok) break;
+    auto sk = std::static_pointer_cast<RecSinkD>(
+      quill::Frontend::create_or_get_sink<RecSinkD>("d" + uniq + "_" + std::to_string(k), ov));
+    sk->set_log_level_filter(static_cast<quill::LogLevel>(minlv > 8 ? 8 : minlv));
+    if (fk) sk->add_filter(std::make_unique<ByteFilter>(fk, static_cast<char>(static_cast<unsigned char>(fb))));
+    sinks.push_back(sk);
+  }
+  std::vector<LoggerSpec> specs;
+  u64 nl = r.num();
+  for (u64 k = 0; k < nl && r.ok; ++k)
+  {
+    LoggerSpec ls;
+    ls.name = r.str(); ls.pattern = r.str(); ls.add_meta = r.num() != 0;
+    u64 n = r.num();
+    for (u64 j = 0; j < n && r.ok; ++j) ls.sinks.push_back(r.num());
+    specs.push_back(ls);
+  }
+  struct DS
+  {
+    u64 logger, lv, site;
+    Stmt s;
+    std::string rt_file, rt_line;
+  };
+  std::vector<DS> sts;
+  u64 nst = r.num();
+  for (u64 k = 0; k < nst && r.ok; ++k)
+  {
+    DS d;
+    d.logger = r.num(); d.lv = r.num(); d.site = r.num();
+    d.s = read_stmt(r); d.rt_file = r.str(); d.rt_line = r.str();
+    sts.push_back(d);
+  }
+  if (!r.ok) return;
+  std::vector<quill::Logger*> loggers;
+  for (auto const& ls : specs)
+  {
+    std::vector<std::shared_ptr<quill::Sink>> v;
+    for (u64 ix : ls.sinks)
+      if (ix < sinks.size()) v.push_back(sinks[ix]);
+    quill::Logger* l = quill::Frontend::create_or_get_logger(ls.name, std::move(v), options_for(ls.pattern, ls.add_meta));
+    l->set_log_level(quill::LogLevel::TraceL3);
+    loggers.push_back(l);
+  }
+  out.push_back(0);
+  out.push_back(sts.size());
+  for (auto const& d : sts)
+  {
+    if (d.logger >= loggers.size()) { out.push_back(8); continue; }
+    size_t before = g_errors.size();
+    log_at_site(loggers[d.logger], d.site, d.s, d.rt_file, d.rt_line);
+    g_worker->poll();
+    out.push_back(g_errors.size() > before ? 1 : 0);
+  }
+  for (auto* l : loggers) quill::Frontend::remove_logger(l);
+  g_worker->poll();
+  g_worker->poll_one();
+  out.push_back(sinks.size());
+  for (auto const& sk : sinks)
+  {
+    out.push_back(sk->lines.size());
+    for (auto const& ln : sk->lines) put_bytes(out, ln);
+  }
+}
 } // namespace
 
 int main()
@@ -265,6 +409,15 @@ int main()
         quill::detail::TimestampFormatter tf{TS_PATTERN, quill::Timezone::GmtTime};
         put_bytes(out, tf.format_timestamp(std::chrono::nanoseconds{ts}));
       }
+      vh::print_line(out);
+      continue;
+    }
+
+    if (model == "patd")
+    {
+      Reader rd{a, 0};
+      run_patd(rd, out);
+      if (!rd.ok) { out = {999999}; }
       vh::print_line(out);
       continue;
     }
